@@ -15,8 +15,8 @@ type DVCase struct {
 	L      int    `json:"l"` // max visiting-sequence length
 }
 
-// a-cells: 0 absent, 1 {x}, 2 {x,y}, 3 {""}; b-cells: 0 absent, 1 {x z}
-const NumDVCells = 8
+// a-cells: 0 absent, 1 {x}, 2 {x,y}, 3 {""}, 4 present with doc values but without any token; b-cells: 0 absent, 1 {x z}
+const NumDVCells = 10
 
 func (c DVCase) batch(reverse bool) spec.Batch {
 	var b spec.Batch
@@ -34,6 +34,8 @@ func (c DVCase) batch(reverse bool) spec.Batch {
 			doc.Fields = append(doc.Fields, spec.Field{Name: "a", DV: true, Len: 2, Toks: []spec.Tok{{Term: "x", Freq: 1}, {Term: "y", Freq: 2, Locs: []spec.Loc{loc(1)}}}})
 		case 3:
 			doc.Fields = append(doc.Fields, spec.Field{Name: "a", DV: true, Len: 1, Toks: []spec.Tok{{Term: "", Freq: 1}}})
+		case 4:
+			doc.Fields = append(doc.Fields, spec.Field{Name: "a", DV: true, Len: 0})
 		}
 		if bc == 1 {
 			doc.Fields = append(doc.Fields, spec.Field{Name: "b", DV: c.BDV, Len: 2, Toks: []spec.Tok{{Term: "x", Freq: 1}, {Term: "z", Freq: 0}}})
@@ -69,7 +71,7 @@ func DVBatches(tier string, emit func(DVCase)) {
 	Product(7, 3, func(v []int) {
 		cells := make([]int, 7)
 		for i, x := range v {
-			cells[i] = []int{0, 2, 5}[x]
+			cells[i] = []int{0, 2, 5}[x] // (cells are a-cell*2 + b-cell)
 		}
 		if tier == "quick" && (v[0]+v[3]+v[6])%3 != 0 {
 			return
